@@ -212,6 +212,8 @@ func init() {
 		"(*sync/atomic.Pointer).Load":          modelAPLoad,
 		"(*sync/atomic.Pointer).Store":         modelAPStore,
 		"(*sync/atomic.Pointer).CompareAndSwap": modelAPCAS,
+		// ---- maps.DeleteFunc(m, del): every entry for which the predicate closure holds is removed
+		"maps.DeleteFunc": modelMapsDeleteFunc,
 		// ---- wire codec (external): Write only reads the message, Read fills it with arbitrary content
 		"github.com/celestiaorg/go-libp2p-messenger/serde.Write": func(fc *FnCtx, fr *Frame, st *State, instr ssa.Instruction, c *ssa.CallCommon, args []Val, rt types.Type) Val {
 			fc.assumptions["serde.Write does not modify the message it serialises"] = true
@@ -298,6 +300,149 @@ func init() {
 			return havocRes(fc, st, "ctxval", rt)
 		},
 	}
+}
+
+// modelMapsDeleteFunc executes the predicate closure once on symbolic (key, value) and quantifies the
+// result over all keys: has'(k) <=> has(k) && !del(k, val(k)); values are unchanged.
+func modelMapsDeleteFunc(fc *FnCtx, fr *Frame, st *State, instr ssa.Instruction, c *ssa.CallCommon, args []Val, rt types.Type) Val {
+	mt, ok := unalias(c.Args[0].Type()).Underlying().(*types.Map)
+	m, mok := args[0].(Term)
+	cv, cok := args[1].(*ClosureVal)
+	if !ok || !mok || !cok || cv.Fn == nil || len(cv.Fn.Params) != 2 {
+		fc.abstract(instr, "maps.DeleteFunc with unmodelled arguments: map contents havoc'd")
+		return nil
+	}
+	hasN, valN, ks, vs := fc.mapHeaps(st, mt)
+	qk := fc.fresh("dfk", ks)
+	qv := fc.fresh("dfv", vs)
+	nBefore := len(fc.assertions)
+	scratch := st.clone()
+	nf := fc.newFrame(cv.Fn, nil, fr.depth+1)
+	nf.env[cv.Fn.Params[0]] = qk
+	nf.env[cv.Fn.Params[1]] = qv
+	for i, fv := range cv.Fn.FreeVars {
+		if i < len(cv.Bindings) {
+			nf.env[fv] = cv.Bindings[i]
+		}
+	}
+	out, res := fc.execBody(nf, scratch)
+	if out == nil || len(res) != 1 || len(nf.panics) > 0 {
+		fc.abstract(instr, "maps.DeleteFunc predicate not evaluable: map contents havoc'd")
+		fc.assertions = fc.assertions[:nBefore]
+		return nil
+	}
+	r, rok := res[0].(Term)
+	// definitional assertions made while executing the predicate mention qk/qv: fold them into the
+	// quantified fact as a conjunction of (premise) definitions
+	defs := append([]string(nil), fc.assertions[nBefore:]...)
+	fc.assertions = fc.assertions[:nBefore]
+	if !rok || r.Sort != SBool {
+		fc.abstract(instr, "maps.DeleteFunc predicate result unmodelled")
+		return nil
+	}
+	hh := st.heaps[hasN]
+	vh := st.heaps[valN]
+	oldHas := tSelect(hh, m)
+	newHas := fc.fresh("dfhas", arrSort(ks, SBool))
+	// quantify: replace the symbolic key/value by the bound variable / the stored value
+	body := r.S
+	pre := "true"
+	if len(defs) > 0 {
+		pre = "(and " + strings.Join(defs, " ") + ")"
+	}
+	val := fmt.Sprintf("(select (select %s %s) dfq)", vh.S, m.S)
+	sub := func(s string) string {
+		s = replaceSymbol(s, qk.S, "dfq")
+		return replaceSymbol(s, qv.S, val)
+	}
+	// the auxiliary constants introduced by the predicate body are definitions (= sym expr): they become
+	// let-bindings inside the quantifier; anything else stays a premise
+	aux := auxSymbols(defs, fc, nBefore)
+	isAux := map[string]bool{}
+	for _, a := range aux {
+		isAux[a[0]] = true
+	}
+	var lets []string
+	var premises []string
+	for _, d := range defs {
+		bound := false
+		for _, a := range aux {
+			if strings.HasPrefix(d, "(= "+a[0]+" ") {
+				lets = append(lets, "("+a[0]+" "+sub(d[len("(= "+a[0]+" "):len(d)-1])+")")
+				bound = true
+				break
+			}
+		}
+		if !bound {
+			premises = append(premises, sub(d))
+		}
+	}
+	pre = "true"
+	if len(premises) > 0 {
+		pre = "(and " + strings.Join(premises, " ") + ")"
+	}
+	inner := fmt.Sprintf("(=> %s (= (select %s dfq) (and (select %s dfq) (not %s))))", pre, newHas.S, oldHas.S, sub(body))
+	for i := len(lets) - 1; i >= 0; i-- {
+		inner = "(let (" + lets[i] + ") " + inner + ")"
+	}
+	fact := fmt.Sprintf("(forall ((dfq %s)) (! %s :pattern ((select %s dfq))))", ks, inner, newHas.S)
+	fc.assume(st, T(SBool, fact))
+	fc.setHeap(st, hasN, tStore(hh, m, newHas))
+	fc.usedModels["maps.DeleteFunc (predicate "+funcDisplayName(cv.Fn)+" evaluated symbolically)"] = true
+	return nil
+}
+
+// replaceSymbol substitutes whole-symbol occurrences in an SMT term string.
+func replaceSymbol(s, sym, by string) string {
+	var b strings.Builder
+	i := 0
+	for i < len(s) {
+		j := strings.Index(s[i:], sym)
+		if j < 0 {
+			b.WriteString(s[i:])
+			break
+		}
+		j += i
+		end := j + len(sym)
+		isSymChar := func(c byte) bool {
+			return c == '_' || c == '.' || c == '$' || c == '!' || (c >= '0' && c <= '9') || (c >= 'a' && c <= 'z') || (c >= 'A' && c <= 'Z')
+		}
+		if (j > 0 && isSymChar(s[j-1])) || (end < len(s) && isSymChar(s[end])) {
+			b.WriteString(s[i:end])
+			i = end
+			continue
+		}
+		b.WriteString(s[i:j])
+		b.WriteString(by)
+		i = end
+	}
+	return b.String()
+}
+
+// auxSymbols: constants declared while executing a predicate body (after assertion index n0) that occur
+// in its definitional assertions; returned as (name, sort) pairs to be bound by the enclosing quantifier.
+func auxSymbols(defs []string, fc *FnCtx, n0 int) [][2]string {
+	var out [][2]string
+	seen := map[string]bool{}
+	for _, d := range defs {
+		for _, m := range symRe.FindAllString(d, -1) {
+			if seen[m] {
+				continue
+			}
+			seen[m] = true
+			decl, ok := fc.decls.text[m]
+			if !ok || !strings.HasPrefix(decl, "(declare-fun "+m+" () ") {
+				continue
+			}
+			// only symbols created by this predicate execution (numbered after the current counter base)
+			if !strings.HasPrefix(d, "(= "+m+" ") {
+				continue
+			}
+			srt := strings.TrimSuffix(strings.TrimPrefix(decl, "(declare-fun "+m+" () "), ")")
+			out = append(out, [2]string{m, srt})
+		}
+	}
+	return out
 }
 
 func modelHavoc(fc *FnCtx, fr *Frame, st *State, instr ssa.Instruction, c *ssa.CallCommon, args []Val, rt types.Type) Val {
